@@ -129,18 +129,23 @@ func (svr *Server) ListenAndServe(uri string) error {
 		return err
 	}
 
-	svr.ln, err = net.Listen(u.Scheme, u.Host)
+	ln, err := net.Listen(u.Scheme, u.Host)
 	if err != nil {
 		return err
 	}
-	defer svr.ln.Close()
+	defer ln.Close()
+
+	// Close() reads the listener from another goroutine.
+	svr.mu.Lock()
+	svr.ln = ln
+	svr.mu.Unlock()
 
 	log.Trace("Listening for MQTT connections")
 
 	var tempDelay time.Duration // how long to sleep on accept failure
 
 	for {
-		conn, err := svr.ln.Accept()
+		conn, err := ln.Accept()
 
 		if err != nil {
 			// http://zhen.org/blog/graceful-shutdown-of-go-net-dot-listeners/
@@ -329,16 +334,17 @@ func (svr *Server) Close() error {
 
 	// We then close the net.Listener, which will force Accept() to return if it's
 	// blocked waiting for new connections.
-	if svr.ln != nil {
-		svr.ln.Close()
+	svr.mu.Lock()
+	ln := svr.ln
+	svcs := svr.svcs
+	svr.mu.Unlock()
+
+	if ln != nil {
+		ln.Close()
 	}
 	if svr.lntls != nil {
 		svr.lntls.Close()
 	}
-
-	svr.mu.Lock()
-	svcs := svr.svcs
-	svr.mu.Unlock()
 
 	// The services are stopped concurrently: the processor of one connection
 	// may be parked on the full outgoing buffer of another one whose peer has
